@@ -1,9 +1,17 @@
 package main
 
 import (
+	"encoding/json"
+	"flag"
 	"fmt"
 	"go/token"
 	"os"
+	"os/exec"
+	"path/filepath"
+	"sort"
+	"strconv"
+	"strings"
+	"time"
 )
 
 func token_pos(li *loopInfo) token.Pos {
@@ -22,7 +30,340 @@ func token_pos(li *loopInfo) token.Pos {
 	return token.NoPos
 }
 
+// PropConfig describes how one property is decided (props.json).
+type PropConfig struct {
+	Packages    []string `json:"packages"`
+	Functions   []string `json:"functions"` // "name" (first package) or "pkgdir:name"
+	Claim       string   `json:"claim"`
+	NotCovered  []string `json:"not_covered"`
+	ReplayPkg   string   `json:"replay_pkg"`  // package dir (relative to repo) the harness is injected into
+	ReplayFile  string   `json:"replay_file"` // harness source under /verif/replay
+	ReplayTags  string   `json:"replay_tags"`
+	Bounded     []string `json:"bounded"`
+	ExtraTrust  []string `json:"extra_trust"`
+	MinOblig    int      `json:"min_obligations"`
+	Lemmas      []string `json:"lemmas"`
+	QuickMs     int      `json:"quick_timeout_ms"`
+	ThoroughMs  int      `json:"thorough_timeout_ms"`
+}
+
+type KnownFinding struct {
+	Property   string `json:"property"`
+	Obligation string `json:"obligation"`
+	What       string `json:"what"`
+	Input      string `json:"input"`
+	Status     string `json:"status"` // "open" or "fixed"
+	Commit     string `json:"commit,omitempty"`
+}
+
+func loadProps() map[string]*PropConfig {
+	data, err := os.ReadFile(verifRoot() + "/props.json")
+	if err != nil {
+		fmt.Fprintln(os.Stderr, "props.json:", err)
+		os.Exit(2)
+	}
+	m := map[string]*PropConfig{}
+	if err := json.Unmarshal(data, &m); err != nil {
+		fmt.Fprintln(os.Stderr, "props.json:", err)
+		os.Exit(2)
+	}
+	return m
+}
+
+func loadKnown() []KnownFinding {
+	data, err := os.ReadFile(verifRoot() + "/known_findings.json")
+	if err != nil {
+		return nil
+	}
+	var ks []KnownFinding
+	if err := json.Unmarshal(data, &ks); err != nil {
+		fmt.Fprintln(os.Stderr, "known_findings.json:", err)
+		os.Exit(2)
+	}
+	return ks
+}
+
+type oblSample struct {
+	Obligation string `json:"obligation"`
+	Kind       string `json:"kind"`
+	Where      string `json:"where"`
+	Clause     string `json:"clause,omitempty"`
+	Status     string `json:"status"`
+	Solver     string `json:"solver"`
+	Ms         int64  `json:"ms"`
+}
+
+// govc check <ID> [--tier quick|thorough]
 func cmdCheck(args []string) {
-	fmt.Fprintln(os.Stderr, "not yet")
-	os.Exit(2)
+	fs := flag.NewFlagSet("check", flag.ExitOnError)
+	tier := fs.String("tier", "quick", "quick|thorough")
+	keep := fs.Bool("keep", false, "keep SMT files")
+	noReplay := fs.Bool("no-replay", false, "skip replay")
+	// allow the ID before the flags
+	var id string
+	if len(args) > 0 && !strings.HasPrefix(args[0], "-") {
+		id = args[0]
+		args = args[1:]
+	}
+	fs.Parse(args)
+	if id == "" && fs.NArg() > 0 {
+		id = fs.Arg(0)
+	}
+	if t := os.Getenv("VERIF_TIER"); t != "" && *tier == "quick" {
+		*tier = t
+	}
+	seed := 1
+	if s := os.Getenv("VERIF_SEED"); s != "" {
+		if n, err := strconv.Atoi(s); err == nil {
+			seed = n
+		}
+	}
+	props := loadProps()
+	pc := props[id]
+	if pc == nil {
+		fmt.Fprintln(os.Stderr, "unknown property", id)
+		os.Exit(2)
+	}
+	start := time.Now()
+	timeout := 20000
+	if pc.QuickMs > 0 {
+		timeout = pc.QuickMs
+	}
+	if *tier == "thorough" {
+		timeout = 120000
+		if pc.ThoroughMs > 0 {
+			timeout = pc.ThoroughMs
+		}
+	}
+	eng, err := loadEngine(repoRoot(), pc.Packages, stdContractFiles())
+	if err != nil {
+		fmt.Printf("ERROR property=%s engine could not load the packages or bind the contracts: %v\n", id, err)
+		os.Exit(2)
+	}
+	work := filepath.Join(verifRoot(), ".work", id+"-"+*tier)
+	os.RemoveAll(work)
+	os.MkdirAll(work, 0o755)
+	if !*keep {
+		defer os.RemoveAll(work)
+	}
+	var keys []string
+	for _, fn := range pc.Functions {
+		pkgDir := pc.Packages[0]
+		name := fn
+		if i := strings.Index(fn, ":"); i >= 0 && !strings.HasPrefix(fn, "(") {
+			pkgDir, name = fn[:i], fn[i+1:]
+		}
+		pkgPath := repoModule + "/" + strings.TrimPrefix(pkgDir, "./")
+		keys = append(keys, qualify(pkgPath, name))
+	}
+	known := loadKnown()
+	isKnown := func(obl string) *KnownFinding {
+		for i := range known {
+			if known[i].Property == id && known[i].Status == "open" && known[i].Obligation == obl {
+				return &known[i]
+			}
+		}
+		return nil
+	}
+	var samples []oblSample
+	var failed []*Verdict
+	failedCtx := map[*Verdict]*FuncResult{}
+	total, discharged := 0, 0
+	var solverMs int64
+	assumptions := map[string]bool{}
+	externs := map[string]bool{}
+	inlined := map[string]bool{}
+	var funcs []string
+	bySolver := map[string]int{}
+	engineErrors := 0
+	knownHit := map[string]bool{}
+	for _, k := range keys {
+		res := eng.verifyFunction(k)
+		if res.Err != nil {
+			fmt.Printf("ERROR property=%s function %s cannot be decided: %v\n", id, k, res.Err)
+			engineErrors++
+			continue
+		}
+		if eng.contracts[k] == nil {
+			fmt.Printf("ERROR property=%s function %s has no contract\n", id, k)
+			engineErrors++
+			continue
+		}
+		funcs = append(funcs, shortKey(k))
+		vs := solveAll(res.Ctx, res.Ctx.obls, work, timeout, 6, seed)
+		for _, v := range vs {
+			total++
+			solverMs += v.Millis
+			good := (v.Status == "unsat" && !v.Obl.WantSat) || (v.Status == "sat" && v.Obl.WantSat)
+			st := v.Status
+			if v.Obl.WantSat {
+				if good {
+					st = "sat(expected: non-vacuous)"
+				} else {
+					st = v.Status + "(VACUOUS?)"
+				}
+			}
+			samples = append(samples, oblSample{v.Obl.Name, v.Obl.Kind, fmt.Sprintf("%s:%d", relPath(v.Obl.Pos.Filename), v.Obl.Pos.Line), v.Obl.Text, st, v.Solver, v.Millis})
+			if good {
+				discharged++
+				bySolver[v.Solver]++
+			} else {
+				failed = append(failed, v)
+				failedCtx[v] = res
+			}
+		}
+		for a := range res.Ctx.assumed {
+			assumptions[a] = true
+		}
+		for a := range res.Ctx.externs {
+			externs[a] = true
+		}
+		for a := range res.Ctx.inlined {
+			inlined[a] = true
+		}
+	}
+	// report
+	violations := 0
+	os.MkdirAll(filepath.Join(verifRoot(), "replays"), 0o755)
+	for _, v := range failed {
+		if kf := isKnown(v.Obl.Name); kf != nil {
+			knownHit[v.Obl.Name] = true
+			fmt.Printf("KNOWN-FINDING: property=%s %s (obligation %s)\n", id, kf.What, v.Obl.Name)
+			discharged++ // accounted for: recorded finding
+			continue
+		}
+		violations++
+		rp := filepath.Join(verifRoot(), "replays", id+"-"+sanitizeFile(v.Obl.Name)+".json")
+		rep := map[string]interface{}{
+			"property": id, "obligation": v.Obl.Name, "function": v.Obl.Func, "kind": v.Obl.Kind,
+			"where": fmt.Sprintf("%s:%d", relPath(v.Obl.Pos.Filename), v.Obl.Pos.Line), "clause": v.Obl.Text,
+			"solver_status": v.Status, "solver": v.Solver, "attempts": v.Attempts, "model": v.Model,
+			"solver_output": firstLines(v.Output, 40),
+		}
+		reproduced := false
+		if v.Status == "sat" && v.Model != nil && pc.ReplayFile != "" && !*noReplay && !v.Obl.WantSat {
+			writeJSON(rp, rep)
+			out, ok := runReplay(pc, id, rp)
+			rep["replay_output"] = out
+			reproduced = ok
+			rep["reproduced"] = ok
+		}
+		writeJSON(rp, rep)
+		if reproduced {
+			fmt.Printf("VIOLATION property=%s replay=%s\n", id, rp)
+		} else {
+			fmt.Printf("VIOLATION property=%s replay=%s no-failing-input-found\n", id, rp)
+		}
+		fmt.Printf("  failed obligation: %s [%s] %s:%d: %s\n", v.Obl.Name, v.Status, relPath(v.Obl.Pos.Filename), v.Obl.Pos.Line, v.Obl.Text)
+	}
+	// known findings that no longer fail are simply not printed
+	trusted := []string{
+		"go/packages + go/types + go/ssa (x/tools v0.50.0) represent the compiled program; go1.26.8 toolchain",
+		"govc VC generator (this engine) and the SMT solvers z3 5.1.0 / cvc5 1.0 / z3 4.8.12",
+		"integers: mathematical Int with exact wrap-around per Go type (machine arithmetic is modelled, not idealised)",
+	}
+	for a := range externs {
+		trusted = append(trusted, "assumed extern contract: "+a)
+	}
+	for a := range assumptions {
+		trusted = append(trusted, a)
+	}
+	for _, t := range pc.ExtraTrust {
+		trusted = append(trusted, t)
+	}
+	sort.Strings(trusted[3:])
+	var inl []string
+	for a := range inlined {
+		inl = append(inl, shortKey(a))
+	}
+	sort.Strings(inl)
+	level := "proof"
+	ev := map[string]interface{}{
+		"property_id": id,
+		"tier":        *tier,
+		"seed":        seed,
+		"level":       level,
+		"coverage": map[string]interface{}{
+			"obligations":           total,
+			"discharged":            discharged,
+			"checker_cmd":           fmt.Sprintf("bin/govc check %s --tier %s", id, *tier),
+			"trusted_base":          trusted,
+			"samples":               samples,
+			"functions_under_contract": funcs,
+			"inlined_callees":       inl,
+			"discharged_by_solver":  bySolver,
+			"solver_time_ms":        solverMs,
+			"per_obligation_timeout_ms": timeout,
+			"claim":                 pc.Claim,
+			"not_covered":           pc.NotCovered,
+			"bounded":               pc.Bounded,
+			"known_findings_hit":    keysOf(knownHit),
+			"contract_constructs":   eng.scan,
+			"contract_files":        relAll(eng.files),
+			"engine_errors":         engineErrors,
+		},
+		"assumptions": trusted,
+		"wall_s":      time.Since(start).Seconds(),
+		"violations":  violations,
+	}
+	os.MkdirAll(filepath.Join(verifRoot(), "evidence"), 0o755)
+	writeJSON(filepath.Join(verifRoot(), "evidence", id+".json"), ev)
+	fmt.Printf("property=%s tier=%s functions=%d obligations=%d discharged=%d violations=%d engine_errors=%d wall=%.1fs\n",
+		id, *tier, len(funcs), total, discharged, violations, engineErrors, time.Since(start).Seconds())
+	if violations > 0 {
+		os.Exit(1)
+	}
+	if engineErrors > 0 || total == 0 || (pc.MinOblig > 0 && total < pc.MinOblig) {
+		fmt.Printf("ERROR property=%s undecided: engine errors=%d obligations=%d (minimum %d)\n", id, engineErrors, total, pc.MinOblig)
+		os.Exit(2)
+	}
+}
+
+func keysOf(m map[string]bool) []string {
+	out := []string{}
+	for k := range m {
+		out = append(out, k)
+	}
+	sort.Strings(out)
+	return out
+}
+
+func relAll(fs []string) []string {
+	var out []string
+	for _, f := range fs {
+		out = append(out, relPath(f))
+	}
+	sort.Strings(out)
+	return out
+}
+
+func writeJSON(path string, v interface{}) {
+	data, _ := json.MarshalIndent(v, "", " ")
+	os.WriteFile(path, append(data, '\n'), 0o644)
+}
+
+// runReplay injects the property's replay harness into the package with -overlay and runs it
+// against the real code. The harness prints "REPLAY: reproduced" when the property statement
+// fails on the model's input.
+func runReplay(pc *PropConfig, id, replayFile string) (string, bool) {
+	repo := repoRoot()
+	harness := filepath.Join(verifRoot(), "replay", pc.ReplayFile)
+	target := filepath.Join(repo, pc.ReplayPkg, "zz_govc_replay_test.go")
+	ov := map[string]interface{}{"Replace": map[string]string{target: harness}}
+	ovFile := replayFile + ".overlay.json"
+	writeJSON(ovFile, ov)
+	defer os.Remove(ovFile)
+	tags := "slicelabels"
+	if pc.ReplayTags != "" {
+		tags = pc.ReplayTags
+	}
+	cmd := exec.Command("go", "test", "-overlay", ovFile, "-tags", tags, "-vet=off", "-count=1", "-timeout", "120s", "-run", "TestGovcReplay", "./"+pc.ReplayPkg+"/")
+	cmd.Dir = repo
+	cmd.Env = append(os.Environ(), "GOVC_REPLAY_FILE="+replayFile, "GOFLAGS=-mod=mod", "GOPROXY=off", "GOSUMDB=off", "GOTOOLCHAIN=local")
+	out, _ := cmd.CombinedOutput()
+	s := string(out)
+	if len(s) > 6000 {
+		s = s[:6000]
+	}
+	return s, strings.Contains(s, "REPLAY: reproduced")
 }
